@@ -68,26 +68,26 @@ package lib
 //@   ensures @C19: result == nil ==> forall i int :: 0 <= i && i < len(c.CovertBlocklistDomains) ==> validRegexp(c.CovertBlocklistDomains[i])
 //@   assigns c.covertBlocklistSubnets, c.covertBlocklistDomains, c.phantomBlocklist, c.covertAllowlistSubnets, c.enableCovertAllowlist
 //@ loop 1:
-//@   invariant 0 <= iter && iter <= len(c.CovertBlocklistSubnets)
+//@   invariant 0 <= iter && iter <= len(c.CovertBlocklistSubnets) && fresh(c.covertBlocklistSubnets)
 //@   invariant forall i int :: 0 <= i && i < iter ==> validCIDR(c.CovertBlocklistSubnets[i])
 //@   modifies c.covertBlocklistSubnets
 //@ loop 2:
-//@   invariant 0 <= iter && iter <= len(c.CovertBlocklistDomains)
+//@   invariant 0 <= iter && iter <= len(c.CovertBlocklistDomains) && fresh(c.covertBlocklistDomains)
 //@   invariant forall i int :: 0 <= i && i < iter ==> validRegexp(c.CovertBlocklistDomains[i])
 //@   modifies c.covertBlocklistDomains
 //@ loop 3:
-//@   invariant 0 <= iter && iter <= len(c.PhantomBlocklist)
+//@   invariant 0 <= iter && iter <= len(c.PhantomBlocklist) && fresh(c.phantomBlocklist)
 //@   invariant forall i int :: 0 <= i && i < iter ==> validCIDR(c.PhantomBlocklist[i])
 //@   modifies c.phantomBlocklist
 //@ loop 4:
-//@   invariant 0 <= iter && iter <= len(c.CovertAllowlistSubnets)
+//@   invariant 0 <= iter && iter <= len(c.CovertAllowlistSubnets) && fresh(c.covertAllowlistSubnets)
 //@   invariant forall i int :: 0 <= i && i < iter ==> validCIDR(c.CovertAllowlistSubnets[i])
 //@   modifies c.covertAllowlistSubnets
 //@ loop 5:
-//@   invariant true
+//@   invariant fresh(c.covertBlocklistSubnets) && fresh(c.phantomBlocklist)
 //@   modifies c.covertBlocklistSubnets, c.phantomBlocklist
 //@ loop 6:
-//@   invariant true
+//@   invariant fresh(c.covertBlocklistSubnets) && fresh(c.phantomBlocklist)
 //@   modifies c.covertBlocklistSubnets, c.phantomBlocklist
 
 // A configuration file that decodes may leave the embedded *RegConfig nil (no registration key present): loading it
